@@ -373,6 +373,8 @@ def finish(run, level_note_extra=None, rule=None, exhaustive=False, assumptions=
     }
     # a run against another checkout (VERIF_REPO) is an experiment: its evidence does not replace the one of /repo
     evdir = os.path.join(VERIF, "evidence") if REPO == "/repo" else os.path.join(VERIF, ".work", "evidence-other-repo")
+    if getattr(run, "replay_of", None):
+        evdir = os.path.join(VERIF, ".work", "evidence-replays")     # a replay covers one case: not the check's evidence
     os.makedirs(evdir, exist_ok=True)
     with open(os.path.join(evdir, run.prop + ".json"), "w") as f:
         json.dump(ev, f, indent=1, default=str)
